@@ -419,7 +419,8 @@ def run_nested(tree, leaves):
             v = values_for(d, 2 * i + 1)
             els.append(build(m, f"E{i}", d, v))
             arrs.append(np_array(d, v))
-        obj, ref = eval_tree(tree, els, arrs)
+        with np.errstate(all="ignore"):
+            obj, ref = eval_tree(tree, els, arrs)
         R = m.converter("R")
         R.equation = obj
         _, got = observe(R)
